@@ -118,7 +118,7 @@ def clamps(F, R):
         for i, (bb, t) in enumerate(tans):
             n += 1
             d = describe(cb, t['args'][0], depth=8, at=bb)
-            R.check('clamp(Mul(frequency, dt), 0.0001, 0.5)' in d, 'B.C13.clamp', 'eq:tan#%d' % i,
+            R.check('clamp(Mul(dt, frequency), 0.0001, 0.5)' in d, 'B.C13.clamp', 'eq:tan#%d' % i,
                     'EQ tan() argument %s does not pass clamp(0.0001, 0.5)' % d[:200], detail={'arg': d[:160]})
         divs = [(bb, s) for bb, si, s in cb.stmts() if s['k'] == 'assign' and s['rv']['k'] == 'bin' and s['rv']['op'] == 'Div'
                 and describe(cb, s['rv']['a']) == '1.0']
